@@ -1017,10 +1017,16 @@ class Executor(Exec):
                 return self.mk(recv.obj_type, fresh_name(recv.name + "[]"), register=True)
         if isinstance(recv, OMap):
             if name == "get":
-                r = self.mk(ty.TOpt(recv.val_type), fresh_name(recv.name + "[]"), register=True)
+                memo = [(k, r) for (k, r) in recv.lookups if self._same_key(k, args[0])]
+                if memo:
+                    r = memo[-1][1]  # same key term, no store in between: same answer (None included)
+                else:
+                    r = self.mk(ty.TOpt(recv.val_type), fresh_name(recv.name + "[]"), register=True)
+                    recv.lookups.append((args[0], r))
+                    if r is not None:
+                        recv.tests.append((args[0], z3.BoolVal(True)))
                 if r is None and len(args) > 1:
                     r = args[1]
-                recv.lookups.append((args[0], r))
                 return r
         if isinstance(recv, ADict):
             if name == "get":
